@@ -27,6 +27,20 @@ def worker_rules(ctx, fi):
         fab = ff.arr.fab
         full = fabio.C(fab, 3).r * N(fab).r
         ok = ff.count is not None and ip.eq(ff.arr.win_lo, Num(0)) and ip.eq(ff.count, Num(full))
+        wtxt = f"{ff.arr.win_lo.text()} | {ff.count.text() if ff.count else ''}"
+        ends = not ok and "vidxs" in wtxt and ("][0]" in wtxt or "][-1]" in wtxt)
+        if ends:
+            # decided on the window polynomial: a window from the list's FIRST entry to its LAST entry holds the selected
+            # components only for an ascending list; combine's lists are in the order the user names the fields
+            srt = any("sort" in norm(a.value) for a in ast.walk(fi.module.tree) if isinstance(a, ast.Assign)
+                      and any("vidxs" in norm(t) for t in a.targets))
+            ctx.decide(False, not srt, f"{P}.WINDOW", site, f"side {fab}: the whole FAB is read",
+                       f"side {fab}: the read window runs from the first to the last entry of the field-index list "
+                       f"({ff.arr.win_lo.text()} .. +{ff.count.text() if ff.count else None}): the list is in the order the "
+                       f"fields were named, not ascending - with `vars` such as 'a1 a0 a2' the lowest / highest selected "
+                       f"component lies outside the window (wrong data or IndexError)", key=f"side{fab}",
+                       where=loc(fi, ff.node))
+            continue
         ctx.check(ok, f"{P}.WINDOW", site, f"side {fab}: the whole FAB is read",
                   f"side {fab}: read window ({ff.arr.win_lo.text()}, {ff.count.text() if ff.count else None}) is not "
                   f"the whole FAB", key=f"side{fab}", where=loc(fi, ff.node))
